@@ -1,0 +1,19 @@
+//go:build verif
+
+package ports
+
+// Contracts for govc (see /verif/DESIGN.md). Comment-only file: contributes no code.
+
+//@ ghost field gauge int
+
+// connSnap is the ghost name of the one connection snapshot a selector takes per Select call.
+//@ ghost var connSnap map[string]int64
+
+//@ interface StatsCollector.GetConnectionStats
+//@   ensures res != nil
+//@   ensures forall k string :: res[k] >= 0
+//@   ensures forall k string :: res[k] == connSnap[k]
+
+//@ interface StatsCollector.RecordConnection
+//@   modifies ghost(endpoint).gauge
+//@   ensures ghost(endpoint).gauge == old(ghost(endpoint).gauge) + delta
